@@ -1291,6 +1291,13 @@ class JParse(JEval):
             elif dec is not None:
                 self.quantity(dec[1], "remaining size")
                 src = ("size", dec[1], None)
+                # elements are read from the whole buffer while a byte budget counts down: an element that runs past the
+                # budget must not end the loop normally.  `budget != 0` keeps going (until the buffer underflows, a
+                # rejection); any ordering test (`> 0`) leaves the loop on a negative budget and accepts the overrun.
+                self.obl("reject-array-overrun", c is not None and c.op == "ne",
+                         f"{self.cls['name']}.{self.fn['name']}: the element loop of a size-delimited array of dynamically sized "
+                         f"elements ends on `{c.op if c is not None else '?'}` instead of exact exhaustion of the size (`!= 0`): an "
+                         f"element extending beyond the declared size is accepted")
             elif c is not None and c.op == "gt":
                 src = ("rest", None, eb)
             else:
